@@ -1,8 +1,7 @@
 (* ExpireExamples.v — C19 on concrete catalogs (vm_compute): non-vacuity of
    the hypotheses of ExpireProofs.v, the behaviour on every kind of value the
-   property names, the exact cut-off, expireAfterSeconds 0, and the witness
-   that the hypothesis `cat_fields_ok` cannot be dropped (a TTL index on a
-   `$`-prefixed field makes every pass fail). *)
+   property names, the exact cut-off, expireAfterSeconds 0, two TTL indexes
+   and a dotted path; an index on a `$`-prefixed field is refused. *)
 From Coq Require Import List ZArith Lia Bool String.
 From Lungo.Model Require Import Txn Match Driver.
 From Lungo.Proofs Require Import EntryLemmas IndexInv CollLists CollInv OplogProofs ExpireProofs.
@@ -129,7 +128,7 @@ Lemma three_ns_hyps (h1 h2 : handle) (c1 c2 : coll) k :
   handle_eqb h1 h2 = false ->
   coll_inv Match c1 -> coll_inv Match c2 ->
   let c := mkCat [(oplog_handle, new_collection false); (h1, c1); (h2, c2)] k in
-  cat_wf c /\ cat_inv c /\ oplog_no_ttl c.
+  cat_wf c /\ cat_colls_ok c /\ oplog_no_ttl c.
 Proof.
   intros E1 E2 E3 I1 I2 c. apply handle_eqb_neq in E1, E2, E3. split; [|split].
   - unfold cat_wf, c. simpl. repeat constructor; simpl; intuition congruence.
@@ -140,24 +139,12 @@ Proof.
   - intros o. unfold c. simpl. intro H. injection H as <-. apply no_ttl_check. reflexivity.
 Qed.
 
-Lemma three_ns_fields_ok (h1 h2 : handle) (c1 c2 : coll) k :
-  ttl_fields_ok c1 -> ttl_fields_ok c2 ->
-  cat_fields_ok (mkCat [(oplog_handle, new_collection false); (h1, c1); (h2, c2)] k).
-Proof.
-  intros F1 F2 h n. simpl.
-  destruct (handle_eqb oplog_handle h);
-    [intro H; injection H as <-; apply ttl_fields_ok_check; reflexivity|].
-  destruct (handle_eqb h1 h); [intro H; injection H as <-; exact F1|].
-  destruct (handle_eqb h2 h); [intro H; injection H as <-; exact F2|discriminate].
-Qed.
 
 (* the hypotheses of txn_expire_exact hold of the example *)
-Example ex_hypotheses : cat_wf cat0 /\ cat_inv cat0 /\ cat_fields_ok cat0 /\ oplog_no_ttl cat0.
+Example ex_hypotheses : cat_wf cat0 /\ cat_colls_ok cat0 /\ oplog_no_ttl cat0.
 Proof.
-  destruct (three_ns_hyps hc hd cC cD 7 eq_refl eq_refl eq_refl
-              (build_coll_inv _ _ _ cC_built) (build_coll_inv _ _ _ cD_built)) as [W [I O]].
-  split; [exact W|]. split; [exact I|]. split; [|exact O].
-    apply three_ns_fields_ok; apply ttl_fields_ok_check; vm_compute; reflexivity.
+  exact (three_ns_hyps hc hd cC cD 7 eq_refl eq_refl eq_refl
+           (build_coll_inv _ _ _ cC_built) (build_coll_inv _ _ _ cD_built)).
 Qed.
 
 Example ex_index_names :
@@ -259,12 +246,10 @@ Proof. vm_compute. reflexivity. Qed.
 Definition cat1 : catalog := mkCat [(oplog_handle, new_collection false); (he, cE); (hd, cD)] 0.
 
 Example ex_two_indexes_hypotheses :
-  cat_wf cat1 /\ cat_inv cat1 /\ cat_fields_ok cat1 /\ oplog_no_ttl cat1.
+  cat_wf cat1 /\ cat_colls_ok cat1 /\ oplog_no_ttl cat1.
 Proof.
-  destruct (three_ns_hyps he hd cE cD 0 eq_refl eq_refl eq_refl
-              (build_coll_inv _ _ _ cE_built) (build_coll_inv _ _ _ cD_built)) as [W [I O]].
-  split; [exact W|]. split; [exact I|]. split; [|exact O].
-    apply three_ns_fields_ok; apply ttl_fields_ok_check; vm_compute; reflexivity.
+  exact (three_ns_hyps he hd cE cD 0 eq_refl eq_refl eq_refl
+           (build_coll_inv _ _ _ cE_built) (build_coll_inv _ _ _ cD_built)).
 Qed.
 
 Example ex_zero_seconds_and_paths :
@@ -276,52 +261,18 @@ Example ex_zero_seconds_and_paths :
 Proof. vm_compute. repeat split; reflexivity. Qed.
 
 (* ------------------------------------------------------------------ *)
-(* the hypothesis cat_fields_ok cannot be dropped: lungo accepts an index
-   key that starts with `$` (MongoDB rejects it); Expire then builds
-   {$or: [{"$x": {$lt: …}}]}, which Match rejects ("unknown top level
-   operator") on the first document — the whole pass fails, and the expired
-   document of ANOTHER collection stays.  Confirmed on the real engine
-   (oracle signature C19:dollar-field-ttl-index-blocks-expiry). *)
+(* an index key with a field name that starts with `$` is refused (lungo
+   8b15f6d, as MongoDB does) — it used to be accepted, and Expire then built
+   {$or: [{"$x": {$lt: …}}]}, which Match rejects as an unknown top-level
+   operator, so every pass failed *)
 
 Definition cf_ttl_dollar : iconfig := mkConfig [("$x", VInt32 1)] false None (expiry_ns (Some 60)).
-Definition cBad : coll := Eval vm_compute in or_empty (build_coll [cf_ttl_dollar] [[("_id", VInt32 1)]]).
-Lemma cBad_built : build_coll [cf_ttl_dollar] [[("_id", VInt32 1)]] = Some cBad.
-Proof. vm_compute. reflexivity. Qed.
+Definition cf_ttl_inner_dollar : iconfig := mkConfig [("a.$x", VInt32 1)] false None (expiry_ns (Some 60)).
 
-Definition hb : handle := ("db", "bad").
-Definition cat_bad : catalog := mkCat [(oplog_handle, new_collection false); (hb, cBad); (he, cE)] 0.
-
-Lemma cat_bad_hyps : cat_wf cat_bad /\ cat_inv cat_bad /\ oplog_no_ttl cat_bad.
-Proof.
-  exact (three_ns_hyps hb he cBad cE 0 eq_refl eq_refl eq_refl
-           (build_coll_inv _ _ _ cBad_built) (build_coll_inv _ _ _ cE_built)).
-Qed.
-
-Lemma cat_bad_fails : txn_expire Match cat_bad g0 now0 = (cat_bad, g0, inr EErr).
-Proof. vm_compute. reflexivity. Qed.
-
-Lemma cat_bad_has_expired :
-  exists n sd, ns_get (cat_ns cat_bad) he = Some n /\ In sd (c_docs n) /\ expired now0 n (snd sd).
-Proof.
-  exists cE, (0, [("_id", VInt32 1); ("b", VDate 99999999)]). split; [reflexivity|]. split.
-  - vm_compute. left. reflexivity.
-  - apply expiredb_iff. vm_compute. reflexivity.
-Qed.
-
-(* the full statement (without cat_fields_ok) is false of the model, as it is
-   of lungo *)
-Theorem txn_expire_exact_refuted :
-  exists now c g,
-    cat_wf c /\ cat_inv c /\ oplog_no_ttl c /\
-    (exists h n sd, ns_get (cat_ns c) h = Some n /\ In sd (c_docs n) /\ expired now n (snd sd)) /\
-    ~ (exists c' g', txn_expire Match c g now = (c', g', inl tt) /\ expire_post now c g c' g') /\
-    txn_expire Match c g now = (c, g, inr EErr).
-Proof.
-  exists now0, cat_bad, g0. destruct cat_bad_hyps as [W [I O]].
-  split; [exact W|]. split; [exact I|]. split; [exact O|]. split.
-  - destruct cat_bad_has_expired as [n [sd H]]. exists he, n, sd. exact H.
-  - split; [|exact cat_bad_fails]. intros [c' [g' [H _]]]. rewrite cat_bad_fails in H. discriminate.
-Qed.
+Example ex_dollar_index_refused :
+  snd (coll_create_index Match (new_collection true) "" cf_ttl_dollar) = inr EErr /\
+  snd (coll_create_index Match (new_collection true) "" cf_ttl_inner_dollar) = inr EErr /\
+  build_coll [cf_ttl_dollar] [[("_id", VInt32 1)]] = None.
+Proof. vm_compute. auto. Qed.
 
 Print Assumptions ex_hypotheses.
-Print Assumptions txn_expire_exact_refuted.
